@@ -1,10 +1,13 @@
 (* C07 — Channels establish, converge and keep working across rotation and restart.
-   PARTIAL: the liveness statement over all adversarial prefixes is proved at the
-   session level (C06: every schedule over a pair's own messages, then a fair
-   suffix, reaches ready and data flows); at the channel level the facts below
-   are proved and the convergence of two whole channels is explored on the
-   model-tied harness (not a proof). *)
-From P2PV Require Import Lib.Base Model.Handshake Model.Channel Proofs.HandshakeP Proofs.ChannelP.
+   PARTIAL.  Proved: at the session level, liveness over all adversarial prefixes
+   (C06: every schedule over a pair's own messages, then a fair suffix, reaches
+   ready and data flows); at the channel level, establishment from ANY pair of
+   reachable channel states in which no handshake is in progress (whatever
+   sessions they remember), convergence of a simultaneous open, and the facts
+   about expiry, rotation and Send below.  Not proved: convergence of two whole
+   channels from states with half-finished handshakes left by an adversarial
+   prefix; that is explored on the model-tied harness (not a proof). *)
+From P2PV Require Import Lib.Base Model.Handshake Model.Channel Proofs.HandshakeP Proofs.ChannelP Proofs.ChannelNP Proofs.ChannelLiveP.
 From Coq Require Import Lia ZifyBool ZifyN.
 Open Scope N_scope.
 
@@ -70,7 +73,63 @@ Proof.
   unfold c_ready, is_ready in Hr. apply Bool.andb_true_iff in Hr as [Hs _]. rewrite Hs. cbn [negb]. eauto.
 Qed.
 
+(* ---- channel level: establishment ---- *)
+
+(* the rekey timer that a blocked Send arms creates the initiator session and emits its InitHello *)
+Theorem C07_rekey_starts_handshake : forall fA rank ts A,
+  ch_s2 (expire A) = None ->
+  ch_s2 (fst (chan_rekey fA rank ts A)) = Some (init0 fA rank ts) /\
+  In (emit (fst (chan_rekey fA rank ts A)) (init0 fA rank ts) MIH) (snd (chan_rekey fA rank ts A)).
+Proof. exact rekey_starts. Qed.
+
+(* From ANY two channel states satisfying the invariant of all reachable states
+   (ChannelNP.InvP), with no handshake in progress at the peer — whatever previous
+   and current sessions either side still holds, of whatever age — the four
+   handshake messages delivered in order over a reliable network establish a new
+   current session on both sides bound to each other's keys, the pending Send goes
+   out through it and the peer hands its data up.  [established] spells out the
+   six steps as equations on chan_deliver / chan_send. *)
+Theorem C07_channel_establishes : forall accept A B fA fB f1 f2 f3 f4 rank ts,
+  InvP accept A -> InvP accept B ->
+  ch_s2 A = Some (init0 fA rank ts) -> bound_ok accept A (ch_key B) ->
+  ch_s2 B = None -> fresh_tag B fB -> orank_ne (ch_s0 B) rank -> orank_ne (ch_s1 B) rank ->
+  ts <? ch_rts B = false -> bound_ok accept B (ch_key A) ->
+  exists B1, chan_deliver accept fB B (emit A (init0 fA rank ts) MIH) =
+               Ok (B1, DSend (emit B1 (resp1 fB fA (ch_key A) rank ts) MRH)) /\
+             established accept A B1 fA fB f1 f2 f3 f4 rank ts.
+Proof. exact establish_inv. Qed.
+
+(* simultaneous open: both sides started a handshake and the InitHellos cross.
+   The side whose session id ranks lower keeps its initiator session (and repeats
+   its InitHello), the other gives its own up for a responder session, and the
+   handshake completes as above: both converge on ONE session pair. *)
+Theorem C07_simultaneous_open_converges : forall accept A B fA fX fB f0 f1 f2 f3 f4 rA tsA rB tsB,
+  rA < rB ->
+  ch_s2 A = Some (init0 fA rA tsA) -> otag_ne (ch_s0 A) fA -> otag_ne (ch_s1 A) fA ->
+  oready (ch_s0 A) -> oready (ch_s1 A) -> bound_ok accept A (ch_key B) ->
+  orank_ne (ch_s0 A) rB -> orank_ne (ch_s1 A) rB -> tsB <? ch_rts A = false ->
+  ch_s2 B = Some (init0 fX rB tsB) -> orank_ne (ch_s0 B) rA -> orank_ne (ch_s1 B) rA ->
+  otag_ne (ch_s0 B) fB -> otag_ne (ch_s1 B) fB -> tsA <? ch_rts B = false -> bound_ok accept B (ch_key A) ->
+  chan_deliver accept f0 A (emit B (init0 fX rB tsB) MIH) = Ok (A, DSend (emit A (init0 fA rA tsA) MIH)) /\
+  exists B1, chan_deliver accept fB B (emit A (init0 fA rA tsA) MIH) =
+               Ok (B1, DSend (emit B1 (resp1 fB fA (ch_key A) rA tsA) MRH)) /\
+             established accept A B1 fA fB f1 f2 f3 f4 rA tsA.
+Proof. exact simultaneous_open_converges. Qed.
+
+(* the hypotheses of C07_channel_establishes are met by states that carry old sessions *)
+Example C07_establish_not_vacuous :
+  let old (t : N) (ini : bool) (k : N) := mkCS (with_hs (new_sess ini) 4 None 40) t (Some (t + 100)) (Some k) t 5 30 in
+  let A := mkCh 1 (Some (old 10 true 2)) (Some (old 11 false 2)) (Some (init0 12 77 9)) (Some 2) 5 100 in
+  let B := mkCh 2 (Some (old 20 true 1)) (Some (old 21 false 1)) None (Some 1) 5 100 in
+  InvP (fun _ => true) A /\ InvP (fun _ => true) B /\
+  bound_ok (fun _ => true) A 2 /\ bound_ok (fun _ => true) B 1 /\ fresh_tag B 22 /\
+  orank_ne (ch_s0 B) 77 /\ orank_ne (ch_s1 B) 77 /\ (9 <? ch_rts B) = false.
+Proof. exact establish_not_vacuous. Qed.
+
 Print Assumptions C07_session_recovers.
 Print Assumptions C07_no_idle_teardown.
 Print Assumptions C07_rotation_keeps_previous.
 Print Assumptions C07_send_when_current.
+Print Assumptions C07_rekey_starts_handshake.
+Print Assumptions C07_channel_establishes.
+Print Assumptions C07_simultaneous_open_converges.
